@@ -5,6 +5,9 @@ import ScriggoV.Lemmas.SlotsJs
 import ScriggoV.Lemmas.SlotsCss
 import ScriggoV.Lemmas.SlotsUrl
 import ScriggoV.Lemmas.SlotsLexerWitness
+import ScriggoV.Lemmas.LexCtxSim
+import ScriggoV.Lemmas.LexCtxRefine
+import ScriggoV.Lemmas.LexShowPreserve
 /-! # C06 — autoescaping confines every shown untrusted value to its syntactic slot
 
 **Layer 1** (every escaper keeps its output inside the slot). The reference scanners of the
@@ -18,14 +21,20 @@ bytes of the regenerated tables (`allBytes_spec` + `decide +kernel`, in `Lemmas/
 showIn* function every site that hands bytes to the writer, with the origin of the bytes and the
 sink (raw write / escaper / converter / recursion). The theorems evaluate the whole table.
 
-**Layer 2** (the lexer's context is the context a browser is in) is NOT proved here: there is no
-positive theorem relating `lexer.go`'s context machine to a reference HTML/JS tokenizer. Only the
-refutation side exists (`script_ctx_agree_false`, on b-c04c21's lexer model: a quote in a regex
-literal, a quote in a template literal, a string ending in an escaped backslash). Agreement is
-covered only by the end-to-end oracle of go/props/c06 (real engine output tokenised by
-x/net/html, a JS lexer, a CSS tokenizer, encoding/json, goldmark). The concrete documents on which
-the lexer's context is wrong (DESIGN §8 row 18 and those found since) are recorded as known
-findings and replayed there. -/
+**Layer 2** (the lexer's context is the context a browser is in) is proved for the class `D` of
+documents and for the FIRST hole of a template (`ctx_agree_partial`): `Spec/HtmlTok.lean` is a
+byte-level reduction of the WHATWG tokenizer (with the JS / CSS lexical states inside script /
+style), `D` is what it does not send to its `bad` state, `HtmlTok.abs` maps a tokenizer state to
+the Scriggo context a value shown there needs. The proof goes through `Model/LexCtx.lean`, the
+projection of C04/C21's lexer model (`Model/Lexer/*`) onto its context fields:
+`Lemmas/LexCtxRefine*.lean` (the full model's `mainLoop` refines the projection; the first `{{`
+token carries the projected context) and `Lemmas/LexCtxSim*.lean` (the projection simulates the
+reference tokenizer on `D`). NOT proved: agreement at the second and later holes (only the
+building block `show_preserves_context`: lexing a show changes none of the context fields), the
+`type` attribute of script/style (hence the JSON context), Markdown files. The full statement
+without the class restriction is refuted (`script_ctx_agree_false`: a quote in a regex literal, a
+quote in a template literal, a string ending in an escaped backslash). The documents outside `D`
+on which the lexer's context is wrong are recorded as known findings and replayed by the harness. -/
 namespace ScriggoV.Props.C06
 open ScriggoV ScriggoV.Slots ScriggoV.Escape ScriggoV.Dispatch ScriggoV.Gen.ShowDispatch
 
@@ -262,5 +271,68 @@ theorem script_ctx_agree_false : ¬ LexerWitness.ScriptCtxAgree ∧
     LexerWitness.holeCtxs (LexerWitness.scriptOpen ++ LexerWitness.backslashWitness ++ LexerWitness.holeClose)
       = some [Gen.LexTables.ContextJSString] :=
   ⟨LexerWitness.scriptCtxAgree_false, LexerWitness.templateWitness_ctx.1, LexerWitness.backslashWitness_ctx.1⟩
+
+/-! ## Layer 2 — agreement on class `D`, first hole -/
+
+/-- **The lexer's context at the first hole is the context a browser is in, for documents of
+class D.** Let the template be `p ++ t` where `t` starts with `{{` and no template delimiter
+starts inside `p`, and let the reference HTML tokenizer (`Spec/HtmlTok.lean`), after reading `p`,
+be in a state for which the abstraction makes a claim `(c, u)` — in particular `p ∈ D`
+(`HtmlTok.run p ≠ bad`: no comments / CDATA / DOCTYPE, no RCDATA or other raw-text elements,
+well-formed tag and attribute names, no `type` attribute on script/style, script content without
+template literals, regular-expression literals, strings ending in an escaped backslash or holding
+a raw newline, style content without quotes in comments, end tags exactly `</script>` /
+`</style>`). Then the full lexer model (`Model/Lexer`, C04/C21) scans the template without a
+fault, the tokens before the first `{{` token are Text / StartURL / EndURL only, that `{{` token
+is at offset `|p|` and carries the context `c`, and it is inside a URL (an open StartURL) exactly
+when `u` says the attribute is one of the lexer's URL attributes.
+
+Partial: (1) only the FIRST hole — for later holes only `show_preserves_context` is proved;
+(2) class `D` only — the full statement is refuted by `script_ctx_agree_false`; (3) HTML files
+that do not start with a `#!` line. -/
+theorem ctx_agree_partial (U : Lexer.Unicode) (p t : Bytes)
+    (ht : ∃ rest, t = 0x7b :: 0x7b :: rest)
+    (hfree : LexCtx.delimFree (p ++ t) p.length)
+    (hsheb : ¬ ∃ rest, p ++ t = 0x23 :: 0x21 :: rest)
+    (c : HtmlTok.Ctx) (u : Bool)
+    (habs : HtmlTok.abs Lexer.containsURL (HtmlTok.run p) = some (c, u)) :
+    ∃ pre tok post e,
+      Lexer.scanTemplate U Gen.LexTables.FormatHTML false (p ++ t) = .ok (pre ++ tok :: post, e) ∧
+      (∀ k ∈ pre, k.typ = Gen.LexTables.tokenText ∨ k.typ = Gen.LexTables.tokenStartURL ∨
+        k.typ = Gen.LexTables.tokenEndURL) ∧
+      LexCtx.urlOf pre.reverse = u ∧
+      tok.typ = Gen.LexTables.tokenLeftBraces ∧ tok.ctx = LexCtx.ctxNat c ∧ tok.start = (p.length : Int) := by
+  obtain ⟨rest, hrest⟩ := ht
+  have hsd : LexCtx.startsDelim t := ⟨0x7b, rest, hrest, Or.inl rfl⟩
+  obtain ⟨hpos, hctx, hurl⟩ := LexCtx.ctx_agree_pure U p t hsd hfree c u habs
+  obtain ⟨pre, tok, post, e, h1, h2, h3, h4, h5, h6⟩ :=
+    LexCtx.first_show_full U p t ⟨rest, hrest⟩ hsheb hpos
+  exact ⟨pre, tok, post, e, h1, h2, by rw [h3, hurl], h4, by rw [h5, hctx], h6⟩
+
+/-- the sub-class "HTML text, tags and attributes" (no script, no style) — a corollary, kept under
+its own name: what the projection machine computes at the hole -/
+theorem ctx_agree_html_partial (U : Lexer.Unicode) (p t : Bytes) (ht : LexCtx.startsDelim t)
+    (hfree : LexCtx.delimFree (p ++ t) p.length) (hh : HtmlTok.htmlOnly p = true)
+    (c : HtmlTok.Ctx) (u : Bool) (habs : HtmlTok.abs Lexer.containsURL (HtmlTok.run p) = some (c, u)) :
+    (LexCtx.ctxAt U (p ++ t) p.length).pos = p.length ∧
+    (LexCtx.ctxAt U (p ++ t) p.length).ctx = LexCtx.ctxNat c ∧ (LexCtx.ctxAt U (p ++ t) p.length).url = u :=
+  LexCtx.ctx_agree_pure_html U p t ht hfree hh c u habs
+
+/-- non-vacuity: `<a href="` is in D and the abstraction claims (quoted attribute, URL) -/
+example : HtmlTok.abs Lexer.containsURL (HtmlTok.run [60, 97, 32, 104, 114, 101, 102, 61, 34]) =
+    some (.quotedAttr, true) := by decide +kernel
+/-- `<script>var a = "x` is in D: JavaScript string -/
+example : HtmlTok.abs Lexer.containsURL
+    (HtmlTok.run [60, 115, 99, 114, 105, 112, 116, 62, 118, 97, 114, 32, 97, 32, 61, 32, 34, 120]) =
+    some (.jsString, false) := by decide +kernel
+/-- the regex witness is outside D -/
+example : HtmlTok.run (LexerWitness.scriptOpen ++ LexerWitness.regexWitness) = .bad := by decide +kernel
+
+/-- Lexing a show statement `{{ … }}` changes none of the fields that decide contexts (`ctx`,
+`contexts`, `tagName`, `tagAttr`, `tagIndex`, `tagCtx`) — the building block for the holes after
+the first one (their agreement theorem is not proved). -/
+theorem show_preserves_context (E : Lexer.Env) (st st' : Lexer.St) (e : Option Lexer.LexErr)
+    (h : Lexer.lexShow E st = .ok (st', e)) : Lexer.SameCtx st st' :=
+  Lexer.lexShow_sameCtx E st st' e h
 
 end ScriggoV.Props.C06
